@@ -155,6 +155,11 @@ def gen_config(seed, tier='quick', family=None):
             cfg['chi_list'] = [[0, wl.choice([2, 4])], [at, None if wl.random() < 0.5 else cfg['chi']]]
         else:
             cfg['chi_list'] = None
+        if fam == 'idmrg':
+            # infinite DMRG is compared in the weak form (energy 1e-5): keep the runs converged enough for that -
+            # with chi_list starting at chi=2 and three sweeps the resumed trajectory differed by 2e-5 (soak, seed 209)
+            cfg['chi_list'] = None
+            cfg['max_sweeps'] = max(cfg['max_sweeps'], 6)
     else:
         cfg.update({
             'dt': wl.choice([0.05, 0.1]),
